@@ -18,15 +18,19 @@ def resJ : Res → Json
   | .exc e => jArr [jStr "exc", jNat e]
   | .retNone => jArr [jStr "retNone"]
   | .handlerError => jArr [jStr "exc", jInt (-1), jStr "AttributeError"]
+  | .formatError => jArr [jStr "exc", jInt (-1), jStr "TypeError"]
 
 def runJ (r : Run) : Json := mkObj [("trace", jArr (r.trace.map evJ)), ("res", resJ r.res)]
 
-/-- case: {"attempts": int, "script": [["ret"|"listed"|"foreign", id], …]}; beyond the script every outcome is `ret 999999` -/
+/-- case: {"attempts": int, "script": [["ret"|"listed"|"foreign", id], …], "named": bool, "unprintable": [i, …]}; beyond the script every outcome is `ret 999999` -/
 def handle (c : Json) : Json :=
   let sc := (jA (jF c "script")).map outcOf
   let script : Nat → Outc := fun i => sc[i]?.getD (.ret 999999)
   let attempts := jI (jF c "attempts")
   let named := match jF c "named" with | .bool b => b | _ => true
-  mkObj [("model", runJ (retryFor named script attempts)), ("spec", runJ (spec script attempts))]
+  -- "unprintable": indices of the invocations whose raised exception cannot be formatted (its `__str__` / `__repr__` raises)
+  let bad := match jF c "unprintable" with | .arr xs => xs.toList.map jN | _ => []
+  let printable : Nat → Bool := fun i => !bad.contains i
+  mkObj [("model", runJ (retryDecorated named printable script attempts)), ("spec", runJ (spec script attempts))]
 
 end PedVerif.Drv.Retry
